@@ -1,31 +1,1491 @@
-//! C05 — placeholder (not registered in MANIFEST until built).
+//! C05 — history is hash-chained and tamper-evident.
+//!
+//! One scenario = one real multi-worldline, multi-head history produced by the runtime world (plus a
+//! sibling history that differs in one intent) and a handful of tampers. The byzantine party is the
+//! retained / transported material: provenance entries, checkpoints, the registered initial boundary,
+//! a BTR and a witnessed-suffix bundle. Delivery paths: (1) `TamperStore<P: ProvenanceStore>` handed to
+//! `PlaybackCursor::seek_to/step`; (2) a fresh `ProvenanceService` rebuilt with `register_worldline` +
+//! `append_local_commit`, then `replay_worldline_state_at`, `add_checkpoint`, `fork`, `validate_btr`;
+//! (3) `validate_btr` / `import_suffix` / `evaluate_witnessed_suffix_admission` on altered records.
+//!
+//! Oracle: untampered material verifies and equals `world.live`; every tamper ends in a typed error /
+//! obstructed admission, or in `Ok` with a verified state identical to the untampered run (per target
+//! tick: reachable abstract state, state root, and per chain link commit id, state root, patch digest,
+//! parent commit ids, tick number, policy). Never a panic, never `Ok` with a different verified state.
+//!
+//! Forgery levels: L1 = the one field; L2 = field + patch digest; L3 = field + patch digest + (state
+//! root) + the entry's own commit id, below the store's tip only. A self-consistent, properly chained
+//! replacement of the LAST entry a store holds is a different valid history (only the external anchor,
+//! the tip commit id, tells it apart) and is never delivered (`valid_alternative_tip`).
+//!
+//! Violation classes: `untampered_history_rejected`, `untampered_replay_differs_from_live`,
+//! `chain_invariant:{gap,parents,commit_id,patch_digest,initial_boundary,append_only,live_mismatch}`,
+//! `different_state_verified:<what>[_via_append|_via_add_checkpoint][_as_last_applied]`,
+//! `tampered_btr_accepted:<field>`, `verifier_panicked:<call>`.
+
+mod history;
+mod store;
+mod tamper;
+mod verify;
 
 use serde::{Deserialize, Serialize};
+use warp_core::{
+    evaluate_witnessed_suffix_admission, import_suffix, CheckpointRef, ImportSuffixRequest, ProvenanceEntry, ProvenanceRef, ReplayCheckpoint, TickReceipt,
+    TxId, WitnessedSuffixAdmissionOutcome, WitnessedSuffixAdmissionRequest, WorldlineId, WorldlineState, WorldlineTick, WorldlineTickHeaderV1,
+    WorldlineTickPatchV1,
+};
 
-use crate::kernel::{Outcome, PropertySpec, Rng, RunCtx, Scenario, Tier};
+use self::history::{build, verified, Hist, ImportCtx, Op, Plan, WlHist};
+use self::store::TamperStore;
+use self::tamper::{
+    flip, junk_op, mutate_entry, recompute_commit_id, recompute_patch_digest, refresh_decision_digest, BtrField, CpField, Env, Kind, Level, Path,
+    RefPart, SfxField, Tamper, CP_FIELDS, ENTRY_FIELDS, REF_PARTS,
+};
+use self::verify::{err_name, honest_feed, rebuild, seam_sweep, targets_for, verify_added_checkpoint, verify_rebuilt, Judged};
+use crate::kernel::{catch, Outcome, PropertySpec, Rng, RunCtx, Scenario, Tier};
+use crate::props::c01::knobs;
+use crate::world::ids;
+use crate::world::prog::Step;
+use crate::world::runtime::{gen_intent, gen_world, Intent, WorldSpec};
 
 pub const SPEC: PropertySpec = PropertySpec {
     id: "C05",
-    level: "exploration",
-    rule: "placeholder",
-    quick_runs: 1,
-    thorough_runs: 1,
-    real_components: &[],
-    stub_components: &[],
-    assumptions: &[],
-    fault_kinds: &[],
+    level: "fault_enumeration",
+    rule: "scenario = world (1-3 worldlines x 1-3 heads) + delivery/pass tape (3-12 passes quick, <=40 thorough) of honest intents with unique nonces + sibling variant of one intent + checkpoint/fork/BTR/suffix selectors + 5-20 tampers (artifact, position, field, new value, forgery level L1/L2/L3, delivery path seam/rebuild); non-trivial = a tamper applied to and consulted from a history of >= 2 ticks; distinct = hash of (history, tamper plan). Fault counters are fault.<tamper kind>.<L1|L2|L3>; SPEC.fault_kinds lists the kinds without the level suffix.",
+    quick_runs: 4_000,
+    thorough_runs: 16_000,
+    real_components: &[
+        "SchedulerCoordinator::super_tick -> ProvenanceService::append_local_commit (history production)",
+        "PlaybackCursor::seek_to / step generic over ProvenanceStore (advance_replay_state, restore_replay_base, validate_replay_base, replay_artifacts_for_entry)",
+        "ProvenanceService: register_worldline, append_local_commit / append_recorded_event (validate_shared_entry, validate_local_commit_entry), replay_worldline_state_at, add_checkpoint (validate_checkpoint_for_history), fork, build_btr, validate_btr",
+        "BoundaryTransitionRecord::validate, BtrPayload::validate",
+        "export_suffix, import_suffix, evaluate_witnessed_suffix_admission, derive_witnessed_suffix_shell_digest",
+        "compute_commit_hash_v2, WarpTickPatchV1::new(..).digest()",
+    ],
+    stub_components: &[
+        "TamperStore<P: ProvenanceStore>: simulator-owned wrapper of the real store that serves altered entries / parents / checkpoints / boundary / length",
+        "WitnessedSuffixExportContext / WitnessedSuffixAdmissionContext: harness implementations over the real ProvenanceService (honest receiver: recomputes the shell digest, resolves the basis in its store, shape-only posture 'admissible')",
+        "application rules: data-driven interpreter",
+    ],
+    assumptions: &[
+        "the commit id of the LAST entry a store holds is the external trust anchor: a fully re-hashed forgery of the tip is a different valid history and is not generated; likewise a suffix bundle whose witness AND bundle digests are both recomputed",
+        "verified state = reachable abstract state + state root + chain links (commit id, state root, patch digest, parent commit ids, tx/tick, policy); commit_global_tick, outputs, atom writes, plan/decision/rewrites digests, head key, event kind, receipt (bound only to the uncommitted decision digest), BTR auth tag / logical counter are outside the chain by merkle-commit.md: accepted alterations are counted as reach.accepted_unbound_metadata.<field>",
+        "content not reachable from the root is outside the state root (merkle-commit.md decision 1) and is not compared",
+    ],
+    fault_kinds: FAULT_KINDS,
 };
+
+const FAULT_KINDS: &[&str] = &[
+    "fault.entry_worldline_id",
+    "fault.entry_worldline_tick",
+    "fault.commit_global_tick",
+    "fault.head_key_none",
+    "fault.head_key",
+    "fault.head_key_worldline",
+    "fault.parent_worldline",
+    "fault.parent_tick",
+    "fault.parent_commit",
+    "fault.parents_dropped",
+    "fault.parents_extra",
+    "fault.parents_grandparent",
+    "fault.event_kind",
+    "fault.expected_state_root",
+    "fault.expected_patch_digest",
+    "fault.expected_commit_hash",
+    "fault.patch_none",
+    "fault.patch_warp_id",
+    "fault.op_removed",
+    "fault.op_duplicated",
+    "fault.op_reordered",
+    "fault.op_field",
+    "fault.op_inserted",
+    "fault.in_slot_removed",
+    "fault.in_slot_duplicated",
+    "fault.in_slots_reordered",
+    "fault.in_slot_field",
+    "fault.in_slot_added",
+    "fault.out_slot_removed",
+    "fault.out_slot_duplicated",
+    "fault.out_slots_reordered",
+    "fault.out_slot_field",
+    "fault.out_slot_added",
+    "fault.plan_digest",
+    "fault.decision_digest",
+    "fault.rewrites_digest",
+    "fault.header_commit_global_tick",
+    "fault.policy_id",
+    "fault.rule_pack_id",
+    "fault.patch_digest_in_patch",
+    "fault.tick_receipt_none",
+    "fault.receipt_entry_rule",
+    "fault.receipt_entry_scope_hash",
+    "fault.receipt_entry_scope",
+    "fault.receipt_entry_disposition",
+    "fault.receipt_entry_removed",
+    "fault.receipt_entry_duplicated",
+    "fault.receipt_tx",
+    "fault.receipt_blockers",
+    "fault.outputs",
+    "fault.atom_writes",
+    "fault.entries_swapped",
+    "fault.entry_duplicated",
+    "fault.history_truncated",
+    "fault.transplanted_other_worldline_entry",
+    "fault.transplanted_sibling_entry",
+    "fault.initial_boundary_hash",
+    "fault.u0_ref",
+    "fault.checkpoint_tick",
+    "fault.checkpoint_state_hash",
+    "fault.checkpoint_state_hash_other_tick",
+    "fault.checkpoint_state_other_tick",
+    "fault.checkpoint_state_graph",
+    "fault.checkpoint_state_unreachable_graph",
+    "fault.checkpoint_state_history_dropped",
+    "fault.checkpoint_state_from_sibling",
+    "fault.checkpoint_state_other_worldline",
+    "fault.btr_worldline_id",
+    "fault.btr_u0_ref",
+    "fault.btr_input_boundary",
+    "fault.btr_output_boundary",
+    "fault.btr_payload_worldline",
+    "fault.btr_payload_start_tick",
+    "fault.btr_entry.<entry field>",
+    "fault.btr_entry_dropped",
+    "fault.btr_entry_duplicated",
+    "fault.btr_entries_swapped",
+    "fault.btr_logical_counter",
+    "fault.btr_auth_tag",
+    "fault.suffix_base_frontier",
+    "fault.suffix_target_frontier",
+    "fault.suffix_source_worldline",
+    "fault.suffix_start_tick",
+    "fault.suffix_end_tick",
+    "fault.suffix_source_entry",
+    "fault.suffix_source_entry_dropped",
+    "fault.suffix_source_entry_duplicated",
+    "fault.suffix_source_entries_swapped",
+    "fault.suffix_boundary_witness",
+    "fault.suffix_witness_digest",
+    "fault.suffix_bundle_digest",
+];
+
+/// Classes of the findings recorded for C05 (one root cause each, see `known_shape`). They are
+/// reported like any other violation; they only yield precedence to unlisted classes inside one scenario.
+const LISTED_FAMILIES: &[&str] = &[
+    "different_state_verified:transplanted_sibling_entry",
+    "different_state_verified:transplanted_sibling_entry_as_last_applied",
+    "different_state_verified:forged_non_tip_entry",
+    "different_state_verified:forged_non_tip_entry_as_last_applied",
+    "different_state_verified:entry_duplicated",
+    "different_state_verified:entry_duplicated_as_last_applied",
+    "different_state_verified:entries_swapped",
+    "different_state_verified:entries_swapped_as_last_applied",
+    "different_state_verified:entry_duplicated_via_append",
+    "different_state_verified:transplanted_other_worldline_entry",
+    "different_state_verified:transplanted_other_worldline_entry_as_last_applied",
+    "different_state_verified:checkpoint_replay_metadata",
+    "verifier_panicked:checkpoint_replay_metadata",
+];
+
+#[derive(Clone, Debug, Serialize, Deserialize)]
+pub struct SiblingSpec {
+    /// index into `ops` of the Deliver that the sibling history replaces
+    pub op: usize,
+    pub intent: Intent,
+}
 
 #[derive(Clone, Debug, Serialize, Deserialize)]
 pub struct C05 {
-    pub placeholder: u8,
+    pub world: WorldSpec,
+    pub ops: Vec<Op>,
+    pub sibling: Option<SiblingSpec>,
+    /// (worldline selector, tick selector)
+    pub checkpoints: Vec<(u8, u32)>,
+    pub fork: (u8, u32),
+    pub btr: (u8, u32, u32),
+    pub suffix: (u8, u32, bool),
+    pub tampers: Vec<Tamper>,
+}
+
+/// Drop steps that cannot apply to the target worldline's initial root instance (writes to nodes /
+/// edges that are not there) and, unless `keep_deletes`, deletions: C05 needs long honest histories,
+/// not failing passes (those are C09's subject).
+fn sanitize(intent: &mut Intent, world: &WorldSpec, keep_deletes: bool) {
+    use crate::world::prog::N;
+    let Some(inst) = world.worldlines.iter().find(|w| w.id == intent.wl()).and_then(|w| w.state.insts.first()) else { return };
+    let has_node = |n: &N| match n {
+        N::D(_) => inst.nodes.iter().any(|(m, _)| m == n),
+        N::R(w) => *w == inst.w,
+        _ => true,
+    };
+    let has_edge = |e: &u8| inst.edges.iter().any(|(x, ..)| x == e);
+    let ok = |s: &Step| -> bool {
+        match s {
+            Step::DeleteNode { n } => keep_deletes && has_node(n),
+            Step::DeleteEdge { e, .. } => keep_deletes && has_edge(e),
+            Step::UpsertEdge { from, to, .. } => has_node(from) && has_node(to),
+            Step::SetNodeAtt { n, .. } => has_node(n),
+            Step::SetEdgeAtt { e, .. } => has_edge(e),
+            Step::CopyNodeAtt { dst, .. } | Step::CountAdjInto { dst, .. } | Step::NodeInfoInto { dst, .. } | Step::EdgeFlagInto { dst, .. } | Step::CopyEdgeAttInto { dst, .. } => has_node(dst),
+            Step::IfEdge { then, .. } => match &**then {
+                Step::SetNodeAtt { n, .. } => has_node(n),
+                _ => true,
+            },
+            _ => true,
+        }
+    };
+    intent.prog.steps.retain(ok);
+    if intent.prog.steps.is_empty() {
+        intent.prog.steps.push(Step::Noop);
+    }
+}
+
+fn variant_of(rng: &mut Rng, base: &Intent) -> Intent {
+    let mut i = base.clone();
+    i.prog.nonce |= 0x4000_0000;
+    // change the first written value so that the sibling tick differs in reachable state when possible
+    for s in i.prog.steps.iter_mut() {
+        match s {
+            Step::SetNodeAtt { val, .. } | Step::SetEdgeAtt { val, .. } => {
+                *val = match val.take() {
+                    Some(mut v) => {
+                        v.bytes.push(b'~');
+                        Some(v)
+                    }
+                    None => Some(crate::world::prog::Val { ty: rng.below(3) as u8, bytes: vec![b'~'] }),
+                };
+                break;
+            }
+            Step::UpsertNode { ty, .. } | Step::UpsertEdge { ty, .. } => {
+                *ty = (*ty + 1) % ids::N_TYPES;
+                break;
+            }
+            _ => {}
+        }
+    }
+    i
+}
+
+fn gen_tamper(rng: &mut Rng, avoid: bool, have_sibling: bool) -> Tamper {
+    let mut level = match rng.weighted(&[5, 3, 3]) {
+        0 => Level::L1,
+        1 => Level::L2,
+        _ => Level::L3,
+    };
+    let mut path = if rng.chance(1, 2) { Path::Seam } else { Path::Rebuild };
+    let kind = match rng.weighted(&[56, 5, 5, 3, 4, if have_sibling { 8 } else { 0 }, 2, 1, 12, 9, 9]) {
+        0 => Kind::Entry(*rng.pick(ENTRY_FIELDS)),
+        1 => Kind::Swap,
+        2 => Kind::Duplicate,
+        3 => Kind::Truncate,
+        4 => Kind::TransplantWorldline,
+        5 => Kind::TransplantSibling,
+        6 => Kind::InitialBoundary,
+        7 => Kind::U0,
+        8 => Kind::Checkpoint(*rng.pick(CP_FIELDS)),
+        9 => Kind::Btr(match rng.below(14) {
+            0 => BtrField::Worldline,
+            1 => BtrField::U0,
+            2 => BtrField::Input,
+            3 => BtrField::Output,
+            4 => BtrField::PayloadWorldline,
+            5 => BtrField::PayloadStart,
+            6 => BtrField::EntryDrop,
+            7 => BtrField::EntryDup,
+            8 => BtrField::EntrySwap,
+            9 => BtrField::Counter,
+            10 => BtrField::AuthTag,
+            _ => BtrField::Entry(*rng.pick(ENTRY_FIELDS)),
+        }),
+        _ => Kind::Suffix(match rng.below(12) {
+            0 => SfxField::Base(*rng.pick(REF_PARTS)),
+            1 => SfxField::Target(*rng.pick(REF_PARTS)),
+            2 => SfxField::SourceWorldline,
+            3 => SfxField::StartTick,
+            4 => SfxField::EndTick,
+            5 | 6 => SfxField::Entry(*rng.pick(REF_PARTS)),
+            7 => SfxField::EntryDrop,
+            8 => SfxField::EntryDup,
+            9 => SfxField::EntrySwap,
+            10 => SfxField::Boundary,
+            _ => {
+                if rng.chance(1, 2) {
+                    SfxField::WitnessDigest
+                } else {
+                    SfxField::BundleDigest
+                }
+            }
+        }),
+    };
+    if avoid {
+        // steer around the shapes of the listed findings (see `known_shape`)
+        let mut t = Tamper { kind, path, level, wl: 0, pos: 0, aux: 0, salt: 1, fix_state_root: false, with_checkpoints: false };
+        for _ in 0..4 {
+            if !known_shape(&t) {
+                break;
+            }
+            match t.kind {
+                Kind::Entry(_) => t.level = Level::L2,
+                Kind::TransplantWorldline => t.path = Path::Rebuild,
+                Kind::Duplicate if t.path == Path::Rebuild => t.level = Level::L1,
+                Kind::Duplicate | Kind::Swap | Kind::TransplantSibling => t.path = Path::Rebuild,
+                Kind::Checkpoint(_) => t.path = Path::Rebuild,
+                _ => {}
+            }
+        }
+        level = t.level;
+        path = t.path;
+    }
+    Tamper { kind, path, level, wl: rng.below(251) as u8, pos: rng.below(1 << 20) as u32, aux: rng.below(1 << 20) as u32, salt: rng.range(1, 255) as u8, fix_state_root: rng.chance(1, 2), with_checkpoints: rng.chance(1, 2) }
+}
+
+/// Shapes of genuine defects found on the unchanged tree (see the findings of C05): runs generated
+/// with `avoid_known` do not contain them, so everything else is still explored to full depth.
+fn known_shape(t: &Tamper) -> bool {
+    match (&t.kind, t.path) {
+        // replay through the store seam never compares an entry's parents with its predecessor / successor
+        (Kind::TransplantSibling, Path::Seam) => true,
+        (Kind::Entry(_), Path::Seam) => t.level == Level::L3,
+        // ... nor the entry's own coordinates (worldline id, tick) with the requested ones
+        (Kind::TransplantWorldline, Path::Seam) => true,
+        (Kind::Duplicate | Kind::Swap, Path::Seam) => true,
+        // append_local_commit does not require the parents of an appended entry to name the current tip
+        (Kind::Duplicate, Path::Rebuild) => t.level != Level::L1,
+        // restore_replay_base checks only the state root of a stored checkpoint, not its replay metadata
+        (Kind::Checkpoint(f), Path::Seam) => matches!(f, CpField::NoHistory | CpField::FromSibling | CpField::StateOtherTick | CpField::Tick | CpField::OtherWorldline),
+        _ => false,
+    }
 }
 
 impl Scenario for C05 {
-    fn generate(_rng: &mut Rng, _tier: Tier, _avoid: bool) -> Self {
-        C05 { placeholder: 0 }
+    fn generate(rng: &mut Rng, tier: Tier, avoid: bool) -> Self {
+        let world = gen_world(rng, 3, 3, 4);
+        let mut kn = knobs(rng, avoid);
+        kn.absent_16 = 0;
+        let n_pass = match tier {
+            Tier::Quick => rng.urange(3, 12),
+            Tier::Thorough => *rng.pick(&[4usize, 8, 12, 16, 24, 40]),
+        };
+        let mut ops = Vec::new();
+        let mut nonce = 1u32;
+        let mut delivers = Vec::new();
+        for _ in 0..n_pass {
+            // now and then a burst of intents for one head, so that receipts carry rejected entries
+            // with blocker attribution (several candidates in one tick)
+            let burst = rng.chance(1, 6);
+            let n_deliver = if burst { rng.urange(3, 6) } else { rng.weighted(&[1, 5, 3, 2]) };
+            let mut burst_target = None;
+            for _ in 0..n_deliver {
+                delivers.push(ops.len());
+                let mut intent = gen_intent(rng, &world, nonce, &kn);
+                if burst {
+                    match &burst_target {
+                        None => burst_target = Some((intent.target.clone(), intent.kind)),
+                        Some((t, k)) => {
+                            // same head; regenerate the program against that worldline's state
+                            let wl = match t {
+                                crate::world::runtime::TargetSpec::Default { wl } | crate::world::runtime::TargetSpec::Inbox { wl, .. } | crate::world::runtime::TargetSpec::Exact { wl, .. } => *wl,
+                            };
+                            if let Some(w) = world.worldlines.iter().find(|w| w.id == wl) {
+                                intent.prog = crate::world::gen::gen_prog(rng, &w.state, 0, intent.prog.rule, nonce, &kn);
+                            }
+                            intent.target = t.clone();
+                            intent.kind = *k;
+                        }
+                    }
+                }
+                // Programs are generated against the initial state; deletions make later programs
+                // inapplicable (a failed pass quarantines the head and cuts the history short): keep few.
+                let keep_deletes = rng.chance(1, 4);
+                sanitize(&mut intent, &world, keep_deletes);
+                // Most generated programs touch content the root does not reach; a marker write to the
+                // (always reachable) root node makes the tick move the state root, so that reordered or
+                // replaced ticks cannot pass for each other by accident.
+                if rng.chance(3, 5) {
+                    intent.prog.steps.push(Step::SetNodeAtt { n: crate::world::prog::N::R(0), val: Some(crate::world::prog::Val { ty: (nonce % 3) as u8, bytes: nonce.to_le_bytes().to_vec() }) });
+                }
+                ops.push(Op::Deliver(intent));
+                nonce += 1;
+            }
+            ops.push(Op::Pass);
+        }
+        let sibling = if !delivers.is_empty() && rng.chance(4, 5) {
+            // prefer an early intent so that the histories share a prefix and then diverge for several ticks
+            let k = delivers[rng.usize_below(delivers.len().min(6))];
+            let base = match &ops[k] {
+                Op::Deliver(b) => b.clone(),
+                Op::Pass => gen_intent(rng, &world, nonce, &kn),
+            };
+            let base = &base;
+            let intent = if rng.chance(2, 3) {
+                variant_of(rng, base)
+            } else {
+                let mut alt = gen_intent(rng, &world, 0x4000_0000 | nonce, &kn);
+                alt.target = base.target.clone();
+                alt.kind = base.kind;
+                // keep the program in the target worldline's universe: regenerate against that worldline's state
+                if let Some(wl) = world.worldlines.iter().find(|w| w.id == base.wl()) {
+                    alt.prog = crate::world::gen::gen_prog(rng, &wl.state, 0, alt.prog.rule, 0x4000_0000 | nonce, &kn);
+                }
+                sanitize(&mut alt, &world, false);
+                alt
+            };
+            Some(SiblingSpec { op: k, intent })
+        } else {
+            None
+        };
+        let checkpoints = (0..rng.urange(0, 3)).map(|_| (rng.below(251) as u8, rng.below(1 << 16) as u32)).collect();
+        let n_t = rng.urange(5, 20);
+        let tampers = (0..n_t).map(|_| gen_tamper(rng, avoid, sibling.is_some())).collect();
+        C05 {
+            world,
+            ops,
+            sibling,
+            checkpoints,
+            fork: (rng.below(251) as u8, rng.below(1 << 16) as u32),
+            btr: (rng.below(251) as u8, rng.below(1 << 16) as u32, rng.below(1 << 16) as u32),
+            suffix: (rng.below(251) as u8, rng.below(1 << 16) as u32, rng.chance(1, 2)),
+            tampers,
+        }
     }
-    fn execute(&self, _ctx: &mut RunCtx) -> Outcome {
+
+    fn execute(&self, ctx: &mut RunCtx) -> Outcome {
+        let plan = Plan { checkpoints: &self.checkpoints, fork: self.fork, btr: self.btr, suffix: self.suffix };
+        let sib = self.sibling.as_ref().filter(|s| matches!(self.ops.get(s.op), Some(Op::Deliver(_)))).map(|s| (s.op, &s.intent));
+        let hist = match build(&self.world, &self.ops, sib, &plan, ctx) {
+            Ok(h) => h,
+            Err(v) => return v,
+        };
+        // the seam itself must be transparent: a wrapper with no alteration verifies like the real store
+        for wl in &hist.wls {
+            let store = TamperStore::new(&hist.with_cp);
+            let mut j = Judged::default();
+            j.absorb(seam_sweep(&store, wl, &targets_for(wl.len(), wl.len()), ctx), &wl.vref);
+            for o in seam_sweep(&store, wl, &targets_for(wl.len(), 0), ctx) {
+                if let verify::R::Err(e) = &o.r {
+                    if o.target <= wl.len() {
+                        return Outcome::violation("untampered_history_rejected", format!("worldline {} target {} ({}): {e}", wl.idx, o.target, o.mode));
+                    }
+                }
+            }
+            if let Some((t, m, p)) = j.panics.first() {
+                return Outcome::violation("verifier_panicked:seek", format!("untampered worldline {} target {t} ({m}): {p}", wl.idx));
+            }
+            if let Some((t, m, d)) = j.wrong.first() {
+                return Outcome::violation("untampered_history_rejected", format!("cursor on worldline {} target {t} ({m}) differs from service replay: {d}", wl.idx));
+            }
+        }
+        let mut applied = 0u64;
+        // Every tamper is executed even after one of them showed a violation, and a violation outside
+        // the families of the listed findings is reported in preference to one inside them, so that a
+        // frequent listed finding cannot hide a rarer new one inside the same scenario (DESIGN 7, masking).
+        let mut first_listed: Option<Outcome> = None;
+        for (ti, t) in self.tampers.iter().enumerate() {
+            match apply_tamper(&hist, t, ctx) {
+                Ok(true) => applied += 1,
+                Ok(false) => ctx.hit("reach.tamper_not_applicable"),
+                Err(Outcome::Violation { class, detail }) => {
+                    let v = Outcome::violation(class.clone(), format!("tamper #{ti} {t:?}: {detail}"));
+                    if LISTED_FAMILIES.iter().any(|f| class == *f) {
+                        first_listed.get_or_insert(v);
+                    } else {
+                        return v;
+                    }
+                }
+                Err(Outcome::Ok) => {}
+            }
+        }
+        ctx.trace_str(&format!("ticks={} applied={applied}", hist.ticks));
+        if (applied > 0 || first_listed.is_some()) && hist.wls.iter().any(|w| w.len() >= 2) {
+            ctx.nontrivial(&serde_json::to_vec(self).unwrap_or_default());
+        }
+        if let Some(v) = first_listed {
+            // self-check of the avoidance mode: a listed class must come from a listed shape
+            if !self.tampers.iter().any(known_shape) {
+                ctx.hit("reach.listed_class_without_listed_shape");
+            }
+            return v;
+        }
         Outcome::Ok
     }
+
+    fn shrink_candidates(&self) -> Vec<Self> {
+        let mut out = Vec::new();
+        // fewer tampers first: a violation names one tamper
+        if self.tampers.len() > 1 {
+            for i in 0..self.tampers.len() {
+                let mut s = self.clone();
+                s.tampers = vec![self.tampers[i].clone()];
+                out.push(s);
+            }
+        }
+        for i in 0..self.tampers.len() {
+            let mut s = self.clone();
+            s.tampers.remove(i);
+            out.push(s);
+        }
+        // shorter history: drop trailing ops, then single ops
+        if self.ops.len() > 1 {
+            let mut s = self.clone();
+            s.ops.truncate(self.ops.len() - 1);
+            s.fix_sibling();
+            out.push(s);
+        }
+        for i in 0..self.ops.len() {
+            let mut s = self.clone();
+            s.ops.remove(i);
+            if let Some(sib) = s.sibling.as_mut() {
+                if sib.op == i {
+                    s.sibling = None;
+                } else if sib.op > i {
+                    sib.op -= 1;
+                }
+            }
+            out.push(s);
+        }
+        if self.sibling.is_some() {
+            let mut s = self.clone();
+            s.sibling = None;
+            out.push(s);
+        }
+        for i in 0..self.checkpoints.len() {
+            let mut s = self.clone();
+            s.checkpoints.remove(i);
+            out.push(s);
+        }
+        if self.world.worldlines.len() > 1 {
+            let last = self.world.worldlines.len() - 1;
+            let id = self.world.worldlines[last].id;
+            let mut s = self.clone();
+            s.world.worldlines.pop();
+            let mut kept = Vec::new();
+            let mut sib_op = s.sibling.as_ref().map(|x| x.op);
+            for (i, o) in self.ops.iter().enumerate() {
+                let drop = matches!(o, Op::Deliver(x) if x.wl() == id);
+                if drop {
+                    if sib_op == Some(i) {
+                        sib_op = None;
+                        s.sibling = None;
+                    }
+                } else {
+                    if sib_op == Some(i) {
+                        if let Some(x) = s.sibling.as_mut() {
+                            x.op = kept.len();
+                        }
+                    }
+                    kept.push(o.clone());
+                }
+            }
+            s.ops = kept;
+            out.push(s);
+        }
+        for wi in 0..self.world.worldlines.len() {
+            if self.world.worldlines[wi].heads.len() > 1 {
+                let mut s = self.clone();
+                let h = s.world.worldlines[wi].heads.pop();
+                if h.is_some_and(|h| h.default) {
+                    s.world.worldlines[wi].heads[0].default = true;
+                }
+                out.push(s);
+            }
+            for st in crate::props::c04::shrink_spec(&self.world.worldlines[wi].state) {
+                let mut s = self.clone();
+                s.world.worldlines[wi].state = st;
+                out.push(s);
+            }
+        }
+        for (oi, op) in self.ops.iter().enumerate() {
+            if let Op::Deliver(i) = op {
+                if i.prog.steps.len() > 1 {
+                    for si in 0..i.prog.steps.len() {
+                        let mut s = self.clone();
+                        if let Op::Deliver(x) = &mut s.ops[oi] {
+                            x.prog.steps.remove(si);
+                        }
+                        out.push(s);
+                    }
+                }
+            }
+        }
+        if self.world.workers > 1 {
+            let mut s = self.clone();
+            s.world.workers = 1;
+            out.push(s);
+        }
+        for i in 0..self.tampers.len() {
+            let t = &self.tampers[i];
+            if t.pos > 0 {
+                let mut s = self.clone();
+                s.tampers[i].pos = 0;
+                out.push(s);
+            }
+            if t.wl > 0 {
+                let mut s = self.clone();
+                s.tampers[i].wl = 0;
+                out.push(s);
+            }
+            if t.aux > 0 {
+                let mut s = self.clone();
+                s.tampers[i].aux = 0;
+                out.push(s);
+            }
+            if t.with_checkpoints {
+                let mut s = self.clone();
+                s.tampers[i].with_checkpoints = false;
+                out.push(s);
+            }
+        }
+        out
+    }
+}
+
+impl C05 {
+    fn fix_sibling(&mut self) {
+        if self.sibling.as_ref().is_some_and(|s| s.op >= self.ops.len()) {
+            self.sibling = None;
+        }
+    }
+}
+
+// ---------------------------------------------------------------------------
+// Applying one tamper
+// ---------------------------------------------------------------------------
+
+fn pick_wl(hist: &Hist, sel: u8, min_len: u64) -> Option<&WlHist> {
+    let c: Vec<&WlHist> = hist.wls.iter().filter(|w| w.len() >= min_len).collect();
+    if c.is_empty() {
+        None
+    } else {
+        Some(c[(sel as usize) % c.len()])
+    }
+}
+
+fn other_worldline(hist: &Hist, wl: &WlHist, sel: u32) -> Option<WorldlineId> {
+    let c: Vec<&WlHist> = hist.wls.iter().filter(|w| w.idx != wl.idx).collect();
+    if c.is_empty() {
+        None
+    } else {
+        Some(c[(sel as usize) % c.len()].id)
+    }
+}
+
+/// Rewrite the tick identity of an entry the way a forger would (tick field and the receipt's tx).
+fn retick(e: &mut ProvenanceEntry, tick: u64) {
+    e.worldline_tick = WorldlineTick::from_raw(tick);
+    if let Some(r) = e.tick_receipt.as_ref() {
+        let entries = r.entries().to_vec();
+        let blockers = (0..entries.len()).map(|i| r.blocked_by(i).to_vec()).collect();
+        if let Ok(n) = TickReceipt::try_from_retained_parts(TxId::from_raw(tick + 1), entries, blockers) {
+            e.tick_receipt = Some(n);
+        }
+    }
+}
+
+fn rehome(e: &mut ProvenanceEntry, from: WorldlineId, to: WorldlineId) {
+    e.worldline_id = to;
+    if let Some(h) = e.head_key.as_mut() {
+        if h.worldline_id == from {
+            h.worldline_id = to;
+        }
+    }
+    for p in &mut e.parents {
+        if p.worldline_id == from {
+            p.worldline_id = to;
+        }
+    }
+}
+
+fn apply_patch_ops(state: &WorldlineState, ops: Vec<warp_core::WarpOp>) -> Option<WorldlineState> {
+    let mut s = state.clone();
+    let p = WorldlineTickPatchV1 {
+        header: WorldlineTickHeaderV1 { commit_global_tick: warp_core::GlobalTick::from_raw(0), policy_id: 0, rule_pack_id: [0; 32], plan_digest: [0; 32], decision_digest: [0; 32], rewrites_digest: [0; 32] },
+        warp_id: state.root().warp_id,
+        ops,
+        in_slots: Vec::new(),
+        out_slots: Vec::new(),
+        patch_digest: [0; 32],
+    };
+    p.apply_to_worldline_state(&mut s).ok()?;
+    Some(s)
+}
+
+/// State root a forger computes for an altered entry: its patch applied to the honest pre-state.
+fn forged_state_root(wl: &WlHist, pos: u64, e: &ProvenanceEntry) -> Option<[u8; 32]> {
+    let mut s = wl.states.get(pos as usize)?.clone();
+    e.patch.as_ref()?.apply_to_worldline_state(&mut s).ok()?;
+    Some(s.state_root())
+}
+
+struct Verdict<'a> {
+    name: String,
+    /// class family used when a different state is verified
+    family: String,
+    level: Level,
+    path: &'a str,
+    unbound: bool,
+    /// tick whose served entry is altered (for the "only as last applied entry" distinction)
+    pos: Option<u64>,
+    fired: bool,
+    is_checkpoint: bool,
+}
+
+fn conclude(v: Verdict<'_>, j: Judged, ctx: &mut RunCtx) -> Result<bool, Outcome> {
+    if !v.fired && j.accepted.is_empty() && j.rejected.is_empty() && j.wrong.is_empty() && j.panics.is_empty() {
+        ctx.hit("reach.tamper_not_consulted");
+        return Ok(false);
+    }
+    ctx.hit(&format!("fault.{}.{}", v.name, v.level.name()));
+    ctx.hit(&format!("reach.path.{}", v.path));
+    if let Some((t, m, p)) = j.panics.first() {
+        let first = p.lines().take(3).collect::<Vec<_>>().join(" | ").chars().take(240).collect::<String>();
+        let class = if v.family == "checkpoint_replay_metadata" { "verifier_panicked:checkpoint_replay_metadata".to_owned() } else { format!("verifier_panicked:{m}") };
+        return Err(Outcome::violation(class, format!("{} ({}, {}): target {t} ({m}): {first}", v.name, v.level.name(), v.path)));
+    }
+    if !j.wrong.is_empty() {
+        // class = what was altered, through which trust boundary it came in (the store seam is the
+        // default; the append API and add_checkpoint validate on the way in), and whether the altered
+        // entry was only ever accepted as the last one applied
+        let only_last = v.path == "seam" && v.pos.is_some_and(|p| j.wrong.iter().all(|(t, _, _)| *t == p + 1));
+        let via = match v.path {
+            "rebuild" if v.is_checkpoint => "_via_add_checkpoint",
+            "rebuild" => "_via_append",
+            _ => "",
+        };
+        let class = format!("different_state_verified:{}{via}{}", v.family, if only_last { "_as_last_applied" } else { "" });
+        let list: Vec<String> = j.wrong.iter().take(6).map(|(t, m, d)| format!("target {t} ({m}): {d}")).collect();
+        return Err(Outcome::violation(class, format!("{} ({}, {}) at position {:?}: verifier returned Ok with a different verified state: {}", v.name, v.level.name(), v.path, v.pos, list.join("; "))));
+    }
+    if !j.accepted.is_empty() {
+        if v.unbound {
+            ctx.hit(&format!("reach.accepted_unbound_metadata.{}", v.name));
+        } else {
+            ctx.hit("reach.accepted_harmless");
+            ctx.hit(&format!("reach.accepted_harmless.{}", v.name));
+        }
+    } else {
+        ctx.hit("reach.rejected_typed");
+        if let Some((_, m, e)) = j.rejected.first() {
+            ctx.hit(&format!("reach.rejected_by.{m}.{}", err_name(e)));
+        }
+    }
+    ctx.trace_str(&format!("{} {} {} acc={} rej={}", v.name, v.level.name(), v.path, j.accepted.len(), j.rejected.len()));
+    Ok(true)
+}
+
+/// Deliver an altered entry sequence for one worldline through the chosen path.
+/// `overrides`: (tick, entry) served instead of the original; `truncate`: reported length.
+fn deliver_entries(hist: &Hist, wl: &WlHist, t: &Tamper, overrides: Vec<(u64, ProvenanceEntry)>, truncate: Option<u64>, focus: u64, ctx: &mut RunCtx) -> Option<(Judged, bool)> {
+    let mut j = Judged::default();
+    let truncated = truncate.is_some();
+    if valid_alternative_tip(wl, &overrides, truncate) {
+        ctx.hit("reach.skipped_valid_alternative_tip");
+        return None;
+    }
+    match t.path {
+        Path::Seam => {
+            let inner = if t.with_checkpoints { &hist.with_cp } else { &hist.plain };
+            let mut store = TamperStore::new(inner);
+            for (tick, e) in overrides {
+                store.entries.insert((wl.id, tick), e);
+            }
+            if let Some(k) = truncate {
+                store.len.insert(wl.id, k);
+            }
+            j.absorb(seam_sweep(&store, wl, &targets_for(wl.len(), focus), ctx), &wl.vref);
+            let fired = store.served() > 0;
+            Some((j, fired))
+        }
+        Path::Rebuild => {
+            let mut feed = honest_feed(hist);
+            // overrides name ORIGINAL coordinates: resolve every slot before any entry is replaced
+            let slots: Vec<Option<usize>> = overrides.iter().map(|(tick, _)| feed.seq.iter().position(|(i, o)| *i == wl.idx && o.worldline_tick.as_u64() == *tick)).collect();
+            for ((_, e), slot) in overrides.into_iter().zip(slots) {
+                if let Some(k) = slot {
+                    feed.seq[k].1 = e;
+                }
+            }
+            if let Some(k) = truncate {
+                feed.seq.retain(|(i, o)| !(*i == wl.idx && o.worldline_tick.as_u64() >= k));
+            }
+            match rebuild(&feed) {
+                Err(e) => {
+                    j.rejected.push((focus, "register", e));
+                }
+                Ok(r) => {
+                    ctx.count("time.verifications", feed.seq.len() as u64);
+                    if let Some(p) = r.panic {
+                        j.panics.push((focus, "append", p));
+                    } else if let Some((_, e)) = r.refused {
+                        j.rejected.push((focus, "append", e));
+                    } else {
+                        j.merge(verify_rebuilt(hist, &r.svc, Some((wl.idx, if truncated { None } else { Some(focus) })), ctx));
+                    }
+                }
+            }
+            Some((j, true))
+        }
+    }
+}
+
+/// The store's last entry for a worldline, fully self-consistent (digests, coordinates) and chained
+/// to the entry served before it, but with another commit id, is a different VALID history: only an
+/// external anchor (the tip commit id) can tell it from the original. Such material is not delivered.
+fn valid_alternative_tip(wl: &WlHist, overrides: &[(u64, ProvenanceEntry)], truncate: Option<u64>) -> bool {
+    let served_len = truncate.unwrap_or(wl.len());
+    if served_len == 0 {
+        return false;
+    }
+    let tip = served_len - 1;
+    let Some((_, e)) = overrides.iter().find(|(t, _)| *t == tip) else { return false };
+    let prev: Option<ProvenanceEntry> = if tip == 0 { None } else { Some(overrides.iter().find(|(t, _)| *t == tip - 1).map(|(_, e)| e.clone()).unwrap_or_else(|| wl.entries[tip as usize - 1].clone())) };
+    let chained = e.parents == prev.map(|p| vec![p.as_ref()]).unwrap_or_default();
+    let coords = e.worldline_id == wl.id && e.worldline_tick.as_u64() == tip;
+    let digests = e.patch.as_ref().is_some_and(|p| tamper::patch_digest_of(p) == e.expected.patch_digest && p.patch_digest == e.expected.patch_digest) && tamper::commit_id_of(e) == Some(e.expected.commit_hash);
+    chained && coords && digests && e.expected.commit_hash != wl.entries[tip as usize].expected.commit_hash
+}
+
+fn apply_tamper(hist: &Hist, t: &Tamper, ctx: &mut RunCtx) -> Result<bool, Outcome> {
+    match &t.kind {
+        Kind::Entry(f) => {
+            let Some(wl) = pick_wl(hist, t.wl, 1) else { return Ok(false) };
+            let len = wl.len();
+            let mut level = t.level;
+            let pos = if level == Level::L3 {
+                if len >= 2 {
+                    u64::from(t.pos) % (len - 1)
+                } else {
+                    level = Level::L2;
+                    0
+                }
+            } else {
+                u64::from(t.pos) % len
+            };
+            let mut e = wl.entries[pos as usize].clone();
+            let older = if pos >= 2 { Some(wl.entries[(t.aux as usize) % (pos as usize - 1)].as_ref()) } else { None };
+            let env = Env { other_worldline: other_worldline(hist, wl, t.aux), older };
+            if !mutate_entry(&mut e, *f, t.aux, t.salt, &env) {
+                return Ok(false);
+            }
+            if level != Level::L1 {
+                refresh_decision_digest(&mut e, *f);
+                recompute_patch_digest(&mut e);
+            }
+            if level == Level::L3 {
+                if t.fix_state_root {
+                    if let Some(r) = forged_state_root(wl, pos, &e) {
+                        e.expected.state_root = r;
+                    }
+                }
+                recompute_commit_id(&mut e);
+            }
+            if e == wl.entries[pos as usize] {
+                return Ok(false);
+            }
+            let Some((j, fired)) = deliver_entries(hist, wl, t, vec![(pos, e)], None, pos, ctx) else { return Ok(false) };
+            let family = if level == Level::L3 { "forged_non_tip_entry".to_owned() } else { f.name().to_owned() };
+            conclude(Verdict { name: f.name().to_owned(), family, level, path: t.path.name(), unbound: f.unbound(), pos: Some(pos), fired, is_checkpoint: false }, j, ctx)
+        }
+        Kind::Swap => {
+            let Some(wl) = pick_wl(hist, t.wl, 2) else { return Ok(false) };
+            let p = u64::from(t.pos) % (wl.len() - 1);
+            let mut a = wl.entries[p as usize + 1].clone();
+            let mut b = wl.entries[p as usize].clone();
+            let level = if t.level == Level::L1 { Level::L1 } else { Level::L2 };
+            if level == Level::L2 {
+                retick(&mut a, p);
+                retick(&mut b, p + 1);
+            }
+            let (j, fired) = match t.path {
+                Path::Seam => match deliver_entries(hist, wl, t, vec![(p, a), (p + 1, b)], None, p, ctx) {
+                    Some(x) => x,
+                    None => return Ok(false),
+                },
+                Path::Rebuild => {
+                    if valid_alternative_tip(wl, &[(p, a.clone()), (p + 1, b.clone())], None) {
+                        return Ok(false);
+                    }
+                    // the append order is what is swapped
+                    let mut feed = honest_feed(hist);
+                    let ia = feed.seq.iter().position(|(i, o)| *i == wl.idx && o.worldline_tick.as_u64() == p);
+                    let ib = feed.seq.iter().position(|(i, o)| *i == wl.idx && o.worldline_tick.as_u64() == p + 1);
+                    let (Some(ia), Some(ib)) = (ia, ib) else { return Ok(false) };
+                    feed.seq[ia].1 = a;
+                    feed.seq[ib].1 = b;
+                    let mut j = Judged::default();
+                    match rebuild(&feed) {
+                        Err(e) => j.rejected.push((p, "register", e)),
+                        Ok(r) => {
+                            if let Some(x) = r.panic {
+                                j.panics.push((p, "append", x));
+                            } else if let Some((_, e)) = r.refused {
+                                j.rejected.push((p, "append", e));
+                            } else {
+                                j.merge(verify_rebuilt(hist, &r.svc, Some((wl.idx, Some(p))), ctx));
+                            }
+                        }
+                    }
+                    (j, true)
+                }
+            };
+            conclude(Verdict { name: t.kind.name(), family: t.kind.name(), level, path: t.path.name(), unbound: false, pos: Some(p), fired, is_checkpoint: false }, j, ctx)
+        }
+        Kind::Duplicate => {
+            let Some(wl) = pick_wl(hist, t.wl, 2) else { return Ok(false) };
+            let p = u64::from(t.pos) % (wl.len() - 1);
+            let mut d = wl.entries[p as usize].clone();
+            // a re-linked, re-hashed duplicate at the tip is a different valid history: L3 only below the tip
+            let level = match t.level {
+                Level::L3 if p + 1 < wl.len() - 1 => Level::L3,
+                Level::L3 => Level::L2,
+                l => l,
+            };
+            if level != Level::L1 {
+                retick(&mut d, p + 1);
+            }
+            if level == Level::L3 {
+                d.parents = vec![wl.entries[p as usize].as_ref()];
+                if t.fix_state_root {
+                    if let Some(r) = forged_state_root(wl, p + 1, &d) {
+                        d.expected.state_root = r;
+                    }
+                }
+                recompute_commit_id(&mut d);
+            }
+            let Some((j, fired)) = deliver_entries(hist, wl, t, vec![(p + 1, d)], None, p + 1, ctx) else { return Ok(false) };
+            let family = if level == Level::L3 { "forged_non_tip_entry".to_owned() } else { t.kind.name() };
+            conclude(Verdict { name: t.kind.name(), family, level, path: t.path.name(), unbound: false, pos: Some(p + 1), fired, is_checkpoint: false }, j, ctx)
+        }
+        Kind::Truncate => {
+            let Some(wl) = pick_wl(hist, t.wl, 1) else { return Ok(false) };
+            let k = u64::from(t.pos) % wl.len();
+            let Some((j, fired)) = deliver_entries(hist, wl, t, Vec::new(), Some(k), k, ctx) else { return Ok(false) };
+            conclude(Verdict { name: t.kind.name(), family: t.kind.name(), level: Level::L1, path: t.path.name(), unbound: false, pos: None, fired, is_checkpoint: false }, j, ctx)
+        }
+        Kind::TransplantWorldline => {
+            let Some(wl) = pick_wl(hist, t.wl, 1) else { return Ok(false) };
+            let donors: Vec<&WlHist> = hist.wls.iter().filter(|w| w.idx != wl.idx && w.len() >= 1).collect();
+            if donors.is_empty() {
+                return Ok(false);
+            }
+            let donor = donors[(t.aux as usize) % donors.len()];
+            let span = wl.len().min(donor.len());
+            let mut level = t.level;
+            let p = if level == Level::L3 {
+                if span >= 1 && wl.len() >= 2 && span.min(wl.len() - 1) >= 1 {
+                    u64::from(t.pos) % span.min(wl.len() - 1)
+                } else {
+                    level = Level::L2;
+                    u64::from(t.pos) % span
+                }
+            } else {
+                u64::from(t.pos) % span
+            };
+            let mut e = donor.entries[p as usize].clone();
+            if level != Level::L1 {
+                rehome(&mut e, donor.id, wl.id);
+            }
+            if level == Level::L3 {
+                e.parents = if p == 0 { Vec::new() } else { vec![wl.entries[p as usize - 1].as_ref()] };
+                if t.fix_state_root {
+                    if let Some(r) = forged_state_root(wl, p, &e) {
+                        e.expected.state_root = r;
+                    }
+                }
+                recompute_commit_id(&mut e);
+            }
+            if e == wl.entries[p as usize] {
+                return Ok(false);
+            }
+            let Some((j, fired)) = deliver_entries(hist, wl, t, vec![(p, e)], None, p, ctx) else { return Ok(false) };
+            let family = if level == Level::L3 { "forged_non_tip_entry".to_owned() } else { t.kind.name() };
+            conclude(Verdict { name: t.kind.name(), family, level, path: t.path.name(), unbound: false, pos: Some(p), fired, is_checkpoint: false }, j, ctx)
+        }
+        Kind::TransplantSibling => {
+            let Some(sib) = hist.sibling.as_ref() else { return Ok(false) };
+            // (worldline, tick) below the store's tip where the sibling's entry differs
+            let mut cands: Vec<(&WlHist, u64)> = Vec::new();
+            for wl in &hist.wls {
+                if let Some((entries, _)) = sib.wls.get(&wl.idx) {
+                    for p in 0..wl.len().saturating_sub(1) {
+                        if let Some(se) = entries.get(p as usize) {
+                            if *se != wl.entries[p as usize] && se.expected.commit_hash != wl.entries[p as usize].expected.commit_hash {
+                                cands.push((wl, p));
+                            }
+                        }
+                    }
+                }
+            }
+            if cands.is_empty() {
+                return Ok(false);
+            }
+            let (wl, p) = cands[(t.pos as usize) % cands.len()];
+            let e = sib.wls[&wl.idx].0[p as usize].clone();
+            if e.expected.state_root != wl.entries[p as usize].expected.state_root {
+                ctx.hit("reach.sibling_entry_differs_in_state_root");
+            }
+            let Some((j, fired)) = deliver_entries(hist, wl, t, vec![(p, e)], None, p, ctx) else { return Ok(false) };
+            conclude(Verdict { name: t.kind.name(), family: t.kind.name(), level: Level::L1, path: t.path.name(), unbound: false, pos: Some(p), fired, is_checkpoint: false }, j, ctx)
+        }
+        Kind::InitialBoundary => {
+            let Some(wl) = pick_wl(hist, t.wl, 0) else { return Ok(false) };
+            let mut j = Judged::default();
+            let fired;
+            match t.path {
+                Path::Seam => {
+                    let inner = if t.with_checkpoints { &hist.with_cp } else { &hist.plain };
+                    let mut store = TamperStore::new(inner);
+                    let mut b = wl.base.state_root();
+                    flip(&mut b, t.aux, t.salt);
+                    store.boundary.insert(wl.id, b);
+                    j.absorb(seam_sweep(&store, wl, &targets_for(wl.len(), 0), ctx), &wl.vref);
+                    fired = store.served() > 0;
+                }
+                Path::Rebuild => {
+                    // the worldline is registered from a different initial state; every entry is then appended unchanged
+                    let Some(alt) = apply_patch_ops(&wl.base, vec![junk_op(wl.base.root().warp_id, t.aux, t.salt | 1)]) else { return Ok(false) };
+                    let Ok(alt) = WorldlineState::new(alt.warp_state().clone(), *wl.base.root()) else { return Ok(false) };
+                    if alt.state_root() == wl.base.state_root() {
+                        return Ok(false);
+                    }
+                    let mut feed = honest_feed(hist);
+                    feed.bases.insert(wl.idx, alt);
+                    match rebuild(&feed) {
+                        Err(e) => j.rejected.push((0, "register", e)),
+                        Ok(r) => {
+                            if let Some(x) = r.panic {
+                                j.panics.push((0, "append", x));
+                            } else if let Some((_, e)) = r.refused {
+                                j.rejected.push((0, "append", e));
+                            } else {
+                                j.merge(verify_rebuilt(hist, &r.svc, Some((wl.idx, None)), ctx));
+                            }
+                        }
+                    }
+                    fired = true;
+                }
+            }
+            conclude(Verdict { name: t.kind.name(), family: t.kind.name(), level: Level::L1, path: t.path.name(), unbound: false, pos: None, fired, is_checkpoint: false }, j, ctx)
+        }
+        Kind::U0 => {
+            let Some(wl) = pick_wl(hist, t.wl, 0) else { return Ok(false) };
+            let inner = if t.with_checkpoints { &hist.with_cp } else { &hist.plain };
+            let mut store = TamperStore::new(inner);
+            store.u0.insert(wl.id, ids::warp(1 + t.salt % 2));
+            let mut j = Judged::default();
+            j.absorb(seam_sweep(&store, wl, &targets_for(wl.len(), 0), ctx), &wl.vref);
+            let fired = store.served() > 0;
+            conclude(Verdict { name: t.kind.name(), family: t.kind.name(), level: Level::L1, path: "seam", unbound: false, pos: None, fired, is_checkpoint: false }, j, ctx)
+        }
+        Kind::Checkpoint(f) => apply_checkpoint_tamper(hist, t, *f, ctx),
+        Kind::Btr(f) => apply_btr_tamper(hist, t, *f, ctx),
+        Kind::Suffix(f) => apply_suffix_tamper(hist, t, *f, ctx),
+    }
+}
+
+fn apply_checkpoint_tamper(hist: &Hist, t: &Tamper, f: CpField, ctx: &mut RunCtx) -> Result<bool, Outcome> {
+    let Some(wl) = pick_wl(hist, t.wl, 1) else { return Ok(false) };
+    let len = wl.len();
+    let c = u64::from(t.pos) % (len + 1);
+    // another coordinate of the same worldline
+    let c2 = {
+        let x = u64::from(t.aux) % (len + 1);
+        if x == c {
+            (c + 1) % (len + 1)
+        } else {
+            x
+        }
+    };
+    let honest = ReplayCheckpoint::from_state(&wl.states[c as usize]);
+    let level = if t.level == Level::L1 { Level::L1 } else { Level::L2 };
+    let mut cp = honest.clone();
+    match f {
+        CpField::Tick => {
+            cp.checkpoint.worldline_tick = WorldlineTick::from_raw(c2);
+            if level == Level::L2 {
+                cp.checkpoint.state_hash = wl.vref[c2 as usize].state_root;
+            }
+        }
+        CpField::StateHash => flip(&mut cp.checkpoint.state_hash, t.aux, t.salt),
+        CpField::StateHashOtherTick => {
+            cp.checkpoint.state_hash = wl.vref[c2 as usize].state_root;
+            if cp.checkpoint.state_hash == honest.checkpoint.state_hash {
+                return Ok(false);
+            }
+        }
+        CpField::StateOtherTick => {
+            cp = ReplayCheckpoint { checkpoint: CheckpointRef { worldline_tick: WorldlineTick::from_raw(c), state_hash: honest.checkpoint.state_hash }, state: ReplayCheckpoint::from_state(&wl.states[c2 as usize]).state };
+            if level == Level::L2 {
+                cp.checkpoint.state_hash = cp.state.state_root();
+            }
+        }
+        CpField::GraphReachable | CpField::GraphUnreachable => {
+            let salt = if f == CpField::GraphReachable { t.salt | 1 } else { t.salt & !1 };
+            let Some(s) = apply_patch_ops(&honest.state, vec![junk_op(wl.base.root().warp_id, t.aux, salt)]) else { return Ok(false) };
+            cp.state = s;
+            if level == Level::L2 {
+                cp.checkpoint.state_hash = cp.state.state_root();
+            }
+        }
+        CpField::NoHistory => {
+            let Ok(s) = WorldlineState::new(honest.state.warp_state().clone(), *honest.state.root()) else { return Ok(false) };
+            if c == 0 {
+                return Ok(false);
+            }
+            cp.state = s;
+        }
+        CpField::FromSibling => {
+            let Some(s) = hist.sibling.as_ref().and_then(|s| s.wls.get(&wl.idx)).and_then(|(_, st)| st.get(c as usize)) else { return Ok(false) };
+            if verified(s) == wl.vref[c as usize] {
+                return Ok(false);
+            }
+            cp.state = ReplayCheckpoint::from_state(s).state;
+            if level == Level::L2 {
+                cp.checkpoint.state_hash = cp.state.state_root();
+            }
+        }
+        CpField::OtherWorldline => {
+            let donors: Vec<&WlHist> = hist.wls.iter().filter(|w| w.idx != wl.idx).collect();
+            if donors.is_empty() {
+                return Ok(false);
+            }
+            let d = donors[(t.aux as usize) % donors.len()];
+            let k = c.min(d.len());
+            cp.state = ReplayCheckpoint::from_state(&d.states[k as usize]).state;
+            if level == Level::L2 {
+                cp.checkpoint.state_hash = cp.state.state_root();
+            }
+        }
+    }
+    let claimed = cp.checkpoint.worldline_tick.as_u64();
+    // Does the altered checkpoint still carry the right state root for the tick it claims (both in its
+    // metadata hash and in its materialised graph)? Then only its replay metadata (tick history, tick
+    // count, replay base) is wrong: that is the one thing `restore_replay_base` does not look at.
+    let root_right = wl.vref.get(claimed as usize).is_some_and(|v| v.state_root == cp.checkpoint.state_hash && v.state_root == cp.state.state_root());
+    let mut j = Judged::default();
+    let fired;
+    match t.path {
+        Path::Seam => {
+            let inner = if t.with_checkpoints { &hist.with_cp } else { &hist.plain };
+            let mut store = TamperStore::new(inner);
+            let mut list: Vec<ReplayCheckpoint> = if t.with_checkpoints { wl.checkpoints.iter().filter(|x| x.checkpoint.worldline_tick.as_u64() != claimed).cloned().collect() } else { Vec::new() };
+            list.push(cp);
+            list.sort_by_key(|x| x.checkpoint.worldline_tick);
+            store.checkpoints.insert(wl.id, list);
+            store.tampered_cp_tick = Some(claimed);
+            j.absorb(seam_sweep(&store, wl, &targets_for(len, claimed), ctx), &wl.vref);
+            fired = store.served() > 0;
+        }
+        Path::Rebuild => {
+            let (_, jj) = verify_added_checkpoint(hist, wl, &cp, ctx);
+            j.merge(jj);
+            fired = true;
+        }
+    }
+    // Through the seam a stored checkpoint is re-verified only by `restore_replay_base` (state root);
+    // whatever is accepted wrongly there is an alteration of the checkpoint's replay metadata.
+    let family = if t.path == Path::Seam && root_right { "checkpoint_replay_metadata".to_owned() } else { f.name().to_owned() };
+    conclude(Verdict { name: f.name().to_owned(), family, level, path: t.path.name(), unbound: false, pos: None, fired, is_checkpoint: true }, j, ctx)
+}
+
+fn apply_btr_tamper(hist: &Hist, t: &Tamper, f: BtrField, ctx: &mut RunCtx) -> Result<bool, Outcome> {
+    let Some((idx, honest)) = hist.btr.as_ref() else { return Ok(false) };
+    let Some(wl) = hist.wls.iter().find(|w| w.idx == *idx) else { return Ok(false) };
+    let mut r = honest.clone();
+    let n = r.payload.entries.len();
+    let mut level = Level::L1;
+    match f {
+        BtrField::Worldline => r.worldline_id = other_worldline(hist, wl, t.aux).unwrap_or_else(|| crate::world::runtime::wl_id(77)),
+        BtrField::U0 => r.u0_ref = ids::warp(1 + t.salt % 2),
+        BtrField::Input => {
+            // another real boundary of the same worldline, or a flipped byte
+            let alt = wl.vref[(t.aux as usize) % wl.vref.len()].state_root;
+            if t.salt & 1 == 0 && alt != r.input_boundary_hash {
+                r.input_boundary_hash = alt;
+            } else {
+                flip(&mut r.input_boundary_hash, t.aux, t.salt);
+            }
+        }
+        BtrField::Output => {
+            let alt = wl.vref[(t.aux as usize) % wl.vref.len()].state_root;
+            if t.salt & 1 == 0 && alt != r.output_boundary_hash {
+                r.output_boundary_hash = alt;
+            } else {
+                flip(&mut r.output_boundary_hash, t.aux, t.salt);
+            }
+        }
+        BtrField::PayloadWorldline => r.payload.worldline_id = other_worldline(hist, wl, t.aux).unwrap_or_else(|| crate::world::runtime::wl_id(77)),
+        BtrField::PayloadStart => {
+            let s = r.payload.start_worldline_tick.as_u64();
+            r.payload.start_worldline_tick = WorldlineTick::from_raw(if t.salt & 1 == 0 && s > 0 { s - 1 } else { s + 1 });
+        }
+        BtrField::Entry(ef) => {
+            let i = (t.pos as usize) % n;
+            let pos = r.payload.entries[i].worldline_tick.as_u64();
+            let older = if pos >= 2 { Some(wl.entries[(t.aux as usize) % (pos as usize - 1)].as_ref()) } else { None };
+            let env = Env { other_worldline: other_worldline(hist, wl, t.aux), older };
+            let mut e = r.payload.entries[i].clone();
+            if !mutate_entry(&mut e, ef, t.aux, t.salt, &env) {
+                return Ok(false);
+            }
+            level = t.level;
+            if level != Level::L1 {
+                refresh_decision_digest(&mut e, ef);
+                recompute_patch_digest(&mut e);
+            }
+            if level == Level::L3 {
+                if t.fix_state_root {
+                    if let Some(x) = forged_state_root(wl, pos, &e) {
+                        e.expected.state_root = x;
+                    }
+                }
+                recompute_commit_id(&mut e);
+                if i + 1 == n {
+                    r.output_boundary_hash = e.expected.state_root;
+                }
+            }
+            r.payload.entries[i] = e;
+        }
+        BtrField::EntryDrop => {
+            if n < 2 {
+                return Ok(false);
+            }
+            let i = (t.pos as usize) % n;
+            r.payload.entries.remove(i);
+            if t.level != Level::L1 {
+                // consistent forgery of the envelope: boundaries and start follow the remaining payload
+                level = Level::L2;
+                if i == 0 {
+                    r.payload.start_worldline_tick = r.payload.entries[0].worldline_tick;
+                    r.input_boundary_hash = wl.vref[r.payload.start_worldline_tick.as_u64() as usize].state_root;
+                }
+                if let Some(last) = r.payload.entries.last() {
+                    r.output_boundary_hash = last.expected.state_root;
+                }
+            }
+        }
+        BtrField::EntryDup => {
+            let i = (t.pos as usize) % n;
+            let e = r.payload.entries[i].clone();
+            r.payload.entries.insert(i, e);
+        }
+        BtrField::EntrySwap => {
+            if n < 2 {
+                return Ok(false);
+            }
+            let i = (t.pos as usize) % (n - 1);
+            r.payload.entries.swap(i, i + 1);
+        }
+        BtrField::Counter => r.logical_counter = r.logical_counter.wrapping_add(1 + u64::from(t.salt)),
+        BtrField::AuthTag => {
+            if r.auth_tag.is_empty() {
+                r.auth_tag.push(t.salt);
+            } else {
+                let i = (t.aux as usize) % r.auth_tag.len();
+                r.auth_tag[i] ^= t.salt | 1;
+            }
+        }
+    }
+    if r == *honest {
+        return Ok(false);
+    }
+    let name = f.name();
+    ctx.hit(&format!("fault.{name}.{}", level.name()));
+    ctx.hit("reach.path.btr");
+    ctx.count("time.verifications", 2);
+    // An altered record can coincide with the honest record of another range of the same history (e.g. a
+    // dropped first/last entry with matching boundaries): that is valid, untampered material.
+    let still_valid_sub_record = {
+        let start = r.payload.start_worldline_tick;
+        let end = WorldlineTick::from_raw(start.as_u64() + r.payload.entries.len() as u64);
+        matches!(hist.plain.build_btr(r.worldline_id, start, end, r.logical_counter, r.auth_tag.clone()), Ok(h) if h == r)
+    };
+    let own = catch(|| r.validate());
+    let full = catch(|| hist.with_cp.validate_btr(&r));
+    for (who, res) in [("btr_validate", &own), ("validate_btr", &full)] {
+        if let Err(p) = res {
+            return Err(Outcome::violation(format!("verifier_panicked:{who}"), format!("{name}: {p}")));
+        }
+    }
+    match full {
+        Ok(Ok(())) => {
+            if f.unbound() {
+                ctx.hit(&format!("reach.accepted_unbound_metadata.{name}"));
+            } else if still_valid_sub_record {
+                ctx.hit("reach.accepted_harmless");
+                ctx.hit(&format!("reach.accepted_harmless.{name}"));
+            } else {
+                return Err(Outcome::violation(format!("tampered_btr_accepted:{name}"), format!("validate_btr returned Ok for a record that differs from the one built from this history: {:?} vs {:?}", brief_btr(&r), brief_btr(honest))));
+            }
+        }
+        Ok(Err(e)) => {
+            ctx.hit("reach.rejected_typed");
+            ctx.hit(&format!("reach.rejected_by.validate_btr.{}", err_name(&format!("{e:?}"))));
+        }
+        Err(_) => {}
+    }
+    Ok(true)
+}
+
+fn brief_btr(r: &warp_core::BoundaryTransitionRecord) -> String {
+    format!(
+        "wl={} u0={} in={} out={} payload(wl={} start={} n={}) counter={} tag={:?}",
+        hex::encode(&r.worldline_id.as_bytes()[..2]),
+        hex::encode(&r.u0_ref.0[..2]),
+        hex::encode(&r.input_boundary_hash[..4]),
+        hex::encode(&r.output_boundary_hash[..4]),
+        hex::encode(&r.payload.worldline_id.as_bytes()[..2]),
+        r.payload.start_worldline_tick.as_u64(),
+        r.payload.entries.len(),
+        r.logical_counter,
+        r.auth_tag
+    )
+}
+
+fn alter_ref(r: &mut ProvenanceRef, part: RefPart, hist: &Hist, wl: &WlHist, aux: u32, salt: u8) {
+    match part {
+        RefPart::Worldline => {
+            r.worldline_id = other_worldline(hist, wl, aux).unwrap_or_else(|| {
+                let mut b = *r.worldline_id.as_bytes();
+                flip(&mut b, aux, salt);
+                WorldlineId::from_bytes(b)
+            })
+        }
+        RefPart::Tick => {
+            let t = r.worldline_tick.as_u64();
+            r.worldline_tick = WorldlineTick::from_raw(if salt & 1 == 0 && t > 0 { t - 1 } else { t + 1 });
+        }
+        RefPart::Commit => {
+            // another real commit of the same worldline, or a flipped byte
+            let alt = wl.entries[(aux as usize) % wl.entries.len()].expected.commit_hash;
+            if salt & 1 == 0 && alt != r.commit_hash {
+                r.commit_hash = alt;
+            } else {
+                flip(&mut r.commit_hash, aux, salt);
+            }
+        }
+    }
+}
+
+fn apply_suffix_tamper(hist: &Hist, t: &Tamper, f: SfxField, ctx: &mut RunCtx) -> Result<bool, Outcome> {
+    let Some(sfx) = hist.suffix.as_ref() else { return Ok(false) };
+    let Some(wl) = hist.wls.iter().find(|w| w.idx == sfx.wl) else { return Ok(false) };
+    let mut b = sfx.bundle.clone();
+    let n = b.source_suffix.source_entries.len();
+    let mut shell_field = true;
+    match f {
+        SfxField::Base(p) => {
+            alter_ref(&mut b.base_frontier, p, hist, wl, t.aux, t.salt);
+            shell_field = false;
+        }
+        SfxField::Target(p) => {
+            alter_ref(&mut b.target_frontier, p, hist, wl, t.aux, t.salt);
+            shell_field = false;
+        }
+        SfxField::SourceWorldline => b.source_suffix.source_worldline_id = other_worldline(hist, wl, t.aux).unwrap_or_else(|| crate::world::runtime::wl_id(77)),
+        SfxField::StartTick => {
+            let s = b.source_suffix.source_suffix_start_tick.as_u64();
+            b.source_suffix.source_suffix_start_tick = WorldlineTick::from_raw(if t.salt & 1 == 0 && s > 0 { s - 1 } else { s + 1 });
+        }
+        SfxField::EndTick => {
+            b.source_suffix.source_suffix_end_tick = match (b.source_suffix.source_suffix_end_tick, t.salt % 3) {
+                (Some(_), 0) => None,
+                (Some(e), 1) => Some(WorldlineTick::from_raw(e.as_u64() + 1)),
+                (Some(e), _) => Some(WorldlineTick::from_raw(e.as_u64().saturating_sub(1))),
+                (None, _) => Some(WorldlineTick::from_raw(u64::from(t.aux % 7))),
+            }
+        }
+        SfxField::Entry(p) => {
+            if n == 0 {
+                return Ok(false);
+            }
+            let i = (t.pos as usize) % n;
+            alter_ref(&mut b.source_suffix.source_entries[i], p, hist, wl, t.aux, t.salt);
+        }
+        SfxField::EntryDrop => {
+            if n == 0 {
+                return Ok(false);
+            }
+            b.source_suffix.source_entries.remove((t.pos as usize) % n);
+        }
+        SfxField::EntryDup => {
+            if n == 0 {
+                return Ok(false);
+            }
+            let i = (t.pos as usize) % n;
+            let e = b.source_suffix.source_entries[i];
+            b.source_suffix.source_entries.insert(i, e);
+        }
+        SfxField::EntrySwap => {
+            if n < 2 {
+                return Ok(false);
+            }
+            let i = (t.pos as usize) % (n - 1);
+            b.source_suffix.source_entries.swap(i, i + 1);
+        }
+        SfxField::Boundary => {
+            b.source_suffix.boundary_witness = match (b.source_suffix.boundary_witness, t.salt % 2) {
+                (Some(_), 0) => None,
+                (Some(mut w), _) => {
+                    alter_ref(&mut w, *[RefPart::Tick, RefPart::Commit, RefPart::Worldline].get((t.aux as usize) % 3).unwrap_or(&RefPart::Commit), hist, wl, t.aux, t.salt);
+                    Some(w)
+                }
+                (None, _) => Some(wl.entries[0].as_ref()),
+            }
+        }
+        SfxField::WitnessDigest => {
+            flip(&mut b.source_suffix.witness_digest, t.aux, t.salt);
+            shell_field = false;
+        }
+        SfxField::BundleDigest => {
+            flip(&mut b.bundle_digest, t.aux, t.salt);
+            shell_field = false;
+        }
+    }
+    if b == sfx.bundle {
+        return Ok(false);
+    }
+    // L2: the forger also recomputes the shell's witness digest (public function); the bundle digest,
+    // which commits to it, is left stale. Recomputing both yields a different self-consistent bundle
+    // whose bundle digest is the external anchor: not generated.
+    let level = if shell_field && t.level != Level::L1 { Level::L2 } else { Level::L1 };
+    if level == Level::L2 {
+        b.source_suffix.witness_digest = warp_core::derive_witnessed_suffix_shell_digest(&b.source_suffix);
+    }
+    let name = f.name();
+    ctx.hit(&format!("fault.{name}.{}", level.name()));
+    ctx.hit("reach.path.suffix");
+    let cx = ImportCtx { prov: &hist.plain };
+    let req = ImportSuffixRequest { bundle: b.clone(), ..sfx.request.clone() };
+    ctx.count("time.verifications", 1);
+    let res = match catch(|| import_suffix(&req, &cx)) {
+        Ok(r) => r,
+        Err(p) => return Err(Outcome::violation("verifier_panicked:import_suffix", format!("{name}: {p}"))),
+    };
+    let obstructed = matches!(res.admission.outcome, WitnessedSuffixAdmissionOutcome::Obstructed { .. });
+    if !obstructed && res != sfx.result {
+        return Err(Outcome::violation(format!("different_state_verified:{name}"), format!("import_suffix of an altered bundle ({}) was not obstructed and its result differs from the untampered import: {:?} instead of {:?}", level.name(), res.admission.outcome, sfx.result.admission.outcome)));
+    }
+    // the shell alone, judged without the bundle envelope (L1 only: with a recomputed witness digest the
+    // shell is a different self-consistent shell and its digest is the anchor)
+    let mut shell_obstructed = true;
+    if shell_field && level == Level::L1 {
+        let areq = WitnessedSuffixAdmissionRequest { source_suffix: b.source_suffix.clone(), target_worldline_id: req.target_worldline_id, target_basis: req.target_basis, basis_report: None };
+        ctx.count("time.verifications", 1);
+        let r = match catch(|| evaluate_witnessed_suffix_admission(&areq, &cx)) {
+            Ok(r) => r,
+            Err(p) => return Err(Outcome::violation("verifier_panicked:evaluate_witnessed_suffix_admission", format!("{name}: {p}"))),
+        };
+        shell_obstructed = matches!(r.outcome, WitnessedSuffixAdmissionOutcome::Obstructed { .. });
+        if !shell_obstructed && r != sfx.result.admission {
+            return Err(Outcome::violation(format!("different_state_verified:{name}"), format!("evaluate_witnessed_suffix_admission of an altered shell was not obstructed: {:?}", r.outcome)));
+        }
+    }
+    if obstructed && shell_obstructed {
+        ctx.hit("reach.rejected_typed");
+        ctx.hit("reach.rejected_by.import_suffix.Obstructed");
+    } else {
+        ctx.hit("reach.accepted_harmless");
+        ctx.hit(&format!("reach.accepted_harmless.{name}"));
+    }
+    Ok(true)
 }
